@@ -35,7 +35,16 @@ TrBridge ==
        ELSE TRUE
     /\ Chk("C11", "invariant_C11_FailsExactlyOnCustom", l, C11_FailsExactlyOnCustom')
     /\ l' = l + 1 /\ TLCSet(1, l + 1)
-TSpec == TInit /\ [][TrBridge]_tvars
+(* a query of an interface written for the empty custom query type, on a contract with a custom query type *)
+TrBridgeQuery ==
+    /\ l <= Len(Rec) /\ E.ev = "BridgeQuery"
+    /\ Chk("C11", "bridged_query_handler_ran_once_with_the_callers_context", l,
+           E.verdict = "ok" /\ Len(E.seen) = 1 /\ CtxSame(E.seen[1], E.env, FALSE))
+    /\ Chk("C11", "bridged_query_handler_uses_the_callers_querier", l,
+           E.verdict = "ok" => E.answer = [t |-> "o", f |-> <<[k |-> "nonce", v |-> [t |-> "s", v |-> E.env.nonce]]>>])
+    /\ l' = l + 1 /\ TLCSet(1, l + 1)
+    /\ UNCHANGED <<resp, stage, result>>
+TSpec == TInit /\ [][TrBridge \/ TrBridgeQuery]_tvars
 TraceAccepted ==
     LET reached == TLCGet(1) IN
     IF reached = Len(Rec) + 1 THEN TRUE ELSE Print(<<"UNMATCHED", reached, Rec[reached].seq>>, FALSE)
